@@ -48,7 +48,7 @@ ASSUMPTIONS = [
   'the check is about internal consistency with the bundled data, not agreement of the data with IANA',
 ]
 BUDGET = {'quick': dict(examples=24000, shards=8, max_seconds=60),
-          'thorough': dict(examples=800000, shards=16, max_seconds=540)}
+          'thorough': dict(examples=800000, shards=16, max_seconds=1800)}
 
 US = 1000000
 HOUR = 3600 * US
